@@ -830,7 +830,13 @@ func (l *LineWrapper) WrapParagraph(config WrapConfig, maxWidth int, paragraph [
 			_, _, hasSecond := runs.Peek()
 			if hasFirst && !hasSecond {
 				if firstRun.Advance.Ceil() <= maxWidth {
-					return l.scratch.singleRunParagraph(firstRun), 0
+					lines := l.scratch.singleRunParagraph(firstRun)
+					// as for the lines built by [WrapNextLine]
+					computeBidiOrdering(config.Direction, lines[0])
+					if !config.DisableTrailingWhitespaceTrim {
+						trimTrailingWhitespace(config.Direction, lines[0])
+					}
+					return lines, 0
 				}
 			}
 		}
@@ -849,6 +855,44 @@ func (l *LineWrapper) WrapParagraph(config WrapConfig, maxWidth int, paragraph [
 		}
 	}
 	return l.scratch.finalParagraph(), line.Truncated
+}
+
+// trimTrailingWhitespace zeroes the advance of the glyph visually last in the
+// paragraph direction if it is a whitespace. It assumes the visual indices of the line are computed.
+func trimTrailingWhitespace(direction di.Direction, finalLine Line) {
+	// Here we find the last visual run in the line.
+	goalIdx := len(finalLine) - 1
+	if direction.Progression() == di.TowardTopLeft {
+		goalIdx = 0
+	}
+	for logicalIdx, run := range finalLine {
+		if run.VisualIndex == int32(goalIdx) {
+			goalIdx = logicalIdx
+			break
+		}
+	}
+	// This next block locates the first/last visual glyph on the line and
+	// zeroes its advance if it is whitespace.
+	finalVisualRun := &finalLine[goalIdx]
+	if L := len(finalVisualRun.Glyphs); L > 0 {
+		glyphIdx := 0
+		if direction.Progression() == di.FromTopLeft {
+			glyphIdx = L - 1
+		}
+		g := finalVisualRun.Glyphs[glyphIdx]
+		trimY := finalVisualRun.Direction.IsVertical() && g.Height == 0 && g.YAdvance != 0
+		trimX := !finalVisualRun.Direction.IsVertical() && g.Width == 0 && g.XAdvance != 0
+		if trimX || trimY {
+			// the glyphs are shared with the runs given by the caller: work on a copy
+			finalVisualRun.Glyphs = append([]Glyph(nil), finalVisualRun.Glyphs...)
+			if trimY {
+				finalVisualRun.Glyphs[glyphIdx].YAdvance = 0
+			} else {
+				finalVisualRun.Glyphs[glyphIdx].XAdvance = 0
+			}
+		}
+		finalVisualRun.RecomputeAdvance()
+	}
 }
 
 // fillUntil tries to fill the line candidate slice with runs until it reaches a run containing the
@@ -941,39 +985,7 @@ func (l *LineWrapper) postProcessLine(finalLine Line, done bool) (WrappedLine, b
 	if len(finalLine) > 0 {
 		computeBidiOrdering(l.config.Direction, finalLine)
 		if !l.config.DisableTrailingWhitespaceTrim {
-			// Here we find the last visual run in the line.
-			goalIdx := len(finalLine) - 1
-			if l.config.Direction.Progression() == di.TowardTopLeft {
-				goalIdx = 0
-			}
-			for logicalIdx, run := range finalLine {
-				if run.VisualIndex == int32(goalIdx) {
-					goalIdx = logicalIdx
-					break
-				}
-			}
-			// This next block locates the first/last visual glyph on the line and
-			// zeroes its advance if it is whitespace.
-			finalVisualRun := &finalLine[goalIdx]
-			if L := len(finalVisualRun.Glyphs); L > 0 {
-				glyphIdx := 0
-				if l.config.Direction.Progression() == di.FromTopLeft {
-					glyphIdx = L - 1
-				}
-				g := finalVisualRun.Glyphs[glyphIdx]
-				trimY := finalVisualRun.Direction.IsVertical() && g.Height == 0 && g.YAdvance != 0
-				trimX := !finalVisualRun.Direction.IsVertical() && g.Width == 0 && g.XAdvance != 0
-				if trimX || trimY {
-					// the glyphs are shared with the runs given by the caller: work on a copy
-					finalVisualRun.Glyphs = append([]Glyph(nil), finalVisualRun.Glyphs...)
-					if trimY {
-						finalVisualRun.Glyphs[glyphIdx].YAdvance = 0
-					} else {
-						finalVisualRun.Glyphs[glyphIdx].XAdvance = 0
-					}
-				}
-				finalVisualRun.RecomputeAdvance()
-			}
+			trimTrailingWhitespace(l.config.Direction, finalLine)
 		}
 
 		finalLogicalRun := finalLine[len(finalLine)-1]
